@@ -1356,7 +1356,7 @@ namespace sim
 			// the number of bytes sent from respective direction
 			// this is used to simulate the TCP sequence number, so it deliberately
 			// is meant to wrap at 32 bits
-			std::uint32_t bytes_sent[2];
+			std::uint32_t bytes_sent[2] = {0, 0};
 
 			int remote_idx(asio::ip::tcp::endpoint const& self) const;
 			int self_idx(asio::ip::tcp::endpoint const& self) const;
